@@ -25,6 +25,9 @@ type CMsg struct {
 	Data   []byte    `json:"data,omitempty"` // d payload, f message, raw bytes
 	Tail   []byte    `json:"tail,omitempty"` // surplus bytes appended inside the frame
 	Over   bool      `json:"over,omitempty"` // raw message whose declared body exceeds the limit
+	// MayClose (with Over): the message is invalid in a way a server may also treat as fatal - an
+	// ErrorResponse at most, then the connection is closed - instead of skipping it
+	MayClose bool `json:"may_close,omitempty"`
 }
 
 func (m CMsg) body() (byte, []byte) {
